@@ -138,7 +138,14 @@ class Native:
         return last, None
 
     def sweep(self, tier):
-        """returns PartResult"""
+        """returns PartResult (cached per tier: several proof parts may share one searcher)"""
+        if not hasattr(self, '_sweeps'):
+            self._sweeps = {}
+        if tier not in self._sweeps:
+            self._sweeps[tier] = self._sweep(tier)
+        return self._sweeps[tier]
+
+    def _sweep(self, tier):
         r = PartResult(self.name, 'bounded')
         t0 = time.time()
         try:
